@@ -99,7 +99,13 @@ func main() {
 			if re := os.Getenv("GCNF_INLINE"); re != "" { // debug: additionally expand callees whose key contains this substring
 				opts.Inline = func(callee *ssa.Function) bool { return strings.Contains(p.FuncKey(callee), re) }
 			}
+			if d := os.Getenv("GCNF_DEPTH"); d != "" {
+				opts.Depth = atoiOr(d, 0)
+			}
 			g := BuildGCNFOpts(p, e, fn, opts)
+			if os.Getenv("GCNF_TAIL") != "" {
+				g = tailRecForm(p, g)
+			}
 			fmt.Printf("%s  (%d paths, %d cut points) %s\n", p.FuncKey(fn), g.NumPaths, len(g.Cuts), g.Undecided)
 			for _, s := range g.Strings() {
 				fmt.Println("   ", s)
